@@ -257,6 +257,25 @@ fn mutations(kind: &str, seed: &[u8], thorough: bool) -> Vec<Vec<u8>> {
             f.extend_from_slice(format!("trailer\n<</Size 6/Root 2 0 R>>\nstartxref\n{}\n%%EOF", xr).as_bytes());
             out.push(f);
         }
+        // reference chains with valid offsets (no cycle): n streams, each taking its /Length from the next one, the last one
+        // with a direct length; the catalog and one page refer to the first
+        for n in [2usize, 10, 100, 300, 1000, 5000] {
+            let mut f = b"%PDF-1.5\n".to_vec();
+            let mut offs = vec![];
+            offs.push(f.len()); f.extend_from_slice(b"1 0 obj\n<</Type/Catalog/Pages 2 0 R>>\nendobj\n");
+            offs.push(f.len()); f.extend_from_slice(b"2 0 obj\n<</Type/Pages/Kids[3 0 R]/Count 1>>\nendobj\n");
+            offs.push(f.len()); f.extend_from_slice(b"3 0 obj\n<</Type/Page/Parent 2 0 R/Contents 4 0 R>>\nendobj\n");
+            for i in 0..n {
+                let id = 4 + i;
+                let len = if i + 1 < n { format!("{} 0 R", id + 1) } else { "5".to_string() };
+                offs.push(f.len()); f.extend_from_slice(format!("{} 0 obj\n<</Length {}>>\nstream\nabcde\nendstream\nendobj\n", id, len).as_bytes());
+            }
+            let xr = f.len();
+            f.extend_from_slice(format!("xref\n0 {}\n0000000000 65535 f \n", offs.len() + 1).as_bytes());
+            for o in &offs { f.extend_from_slice(format!("{:010} 00000 n \n", o).as_bytes()); }
+            f.extend_from_slice(format!("trailer\n<</Size {}/Root 1 0 R>>\nstartxref\n{}\n%%EOF", offs.len() + 1, xr).as_bytes());
+            out.push(f);
+        }
     }
     if kind == "doc" {
         // a stream whose /Length is an indirect reference that only resolves after the parallel phase (the length object is
@@ -380,7 +399,7 @@ pub fn run_depth(thorough: bool) -> Report {
 
 pub fn run(thorough: bool) -> Report {
     let jobs = all_jobs(thorough);
-    let mut rep = Report::new("seeds: 4 small documents (table / xref stream / Flate+predictor xref stream with object stream / incremental), a content stream, a ToUnicode CMap, a text string; inputs: every single-byte substitution (quick: 25 lexically significant values, thorough: all 256) at every offset, every truncation, splices, 17 numeric extremes in every digit run, and in every digit run the second-order extremes floor((L-k)/d) and successor for L = 2^31-1, 2^32-1, 2^63-1, 2^64-1, k = 0..=8 (a value above 2^63-1 written as the negative integer that casts to it: -1..-9), d = 1 for documents (39 values; thorough d in 1,2,3,4,8: 85 values), d in 1..=8,12,16,24,32,48,64 for the content stream and the CMap (150 values), every <hex string> of the CMap replaced by 00.., 7FFF.., 8000.., FF.. of 1 to 5 bytes, W/Index/Prev/Length/Kids constructions, 76 files whose stream /Length is a compressed object resolving after the parallel phase (values 0..700 in steps of 10 around the distance to the end of the file, and 2^32, 2^63-1), nesting depth up to 3000 (thorough 100000) for [ << ( and dictionaries, all filter-parameter selector combinations over six payloads (empty deflate, raw rows, ASCII85, and three zlib streams ending in a truncated predictor row); inline images BI..ID..EI (data size ceil(W*BPC*components/8)*H): colour space G, DeviceGray, RGB, DeviceRGB, CMYK, DeviceCMYK (abbreviated keys for the short names, full keys for the long ones) x BPC 1,2,4,8,16, each with the 150 second-order extremes at W, at H and at BPC, and for the short spellings the 39 x 39 pairs (d = 1) at W and H together (36345 content streams); ToUnicode CMaps written from the grammar: code length 1..=4 x bfrange lo, hi each over 0, 1, middle, max-1, max of that length (25 pairs: empty, single, reversed, half and full ranges up to 2^32 codes) x destination <0041>, <00660069>, [<0041>], [<0041> <0042>], [<0041> <00420043> <0044>], [] x the line once or three times x alone or after bfchar and bfrange definitions (2400 CMaps; each then decodes 7 code strings of 1..4-byte codes); Flate + predictor 2 and 12 with Colors 1,3,4 x BitsPerComponent 1,2,4,8,16 x the 150 extremes as Columns, and the 39 extremes (d = 1) as Colors, as BitsPerComponent, and as Columns and Colors together (7698); each input in a worker with a 2 MiB stack, 4 GB address space, a 10 s no-progress watchdog, and a CPU-time budget of 1 s + 10 us per input byte (process CPU time over all threads; measured a second time, smaller figure kept, unless exceeded more than 4 times)", false);
+    let mut rep = Report::new("seeds: 4 small documents (table / xref stream / Flate+predictor xref stream with object stream / incremental), a content stream, a ToUnicode CMap, a text string; inputs: every single-byte substitution (quick: 25 lexically significant values, thorough: all 256) at every offset, every truncation, splices, 17 numeric extremes in every digit run, and in every digit run the second-order extremes floor((L-k)/d) and successor for L = 2^31-1, 2^32-1, 2^63-1, 2^64-1, k = 0..=8 (a value above 2^63-1 written as the negative integer that casts to it: -1..-9), d = 1 for documents (39 values; thorough d in 1,2,3,4,8: 85 values), d in 1..=8,12,16,24,32,48,64 for the content stream and the CMap (150 values), every <hex string> of the CMap replaced by 00.., 7FFF.., 8000.., FF.. of 1 to 5 bytes, W/Index/Prev/Length/Kids constructions (cycles, and chains of 2..5000 streams each taking its /Length from the next), 76 files whose stream /Length is a compressed object resolving after the parallel phase (values 0..700 in steps of 10 around the distance to the end of the file, and 2^32, 2^63-1), nesting depth up to 3000 (thorough 100000) for [ << ( and dictionaries, all filter-parameter selector combinations over six payloads (empty deflate, raw rows, ASCII85, and three zlib streams ending in a truncated predictor row); inline images BI..ID..EI (data size ceil(W*BPC*components/8)*H): colour space G, DeviceGray, RGB, DeviceRGB, CMYK, DeviceCMYK (abbreviated keys for the short names, full keys for the long ones) x BPC 1,2,4,8,16, each with the 150 second-order extremes at W, at H and at BPC, and for the short spellings the 39 x 39 pairs (d = 1) at W and H together (36345 content streams); ToUnicode CMaps written from the grammar: code length 1..=4 x bfrange lo, hi each over 0, 1, middle, max-1, max of that length (25 pairs: empty, single, reversed, half and full ranges up to 2^32 codes) x destination <0041>, <00660069>, [<0041>], [<0041> <0042>], [<0041> <00420043> <0044>], [] x the line once or three times x alone or after bfchar and bfrange definitions (2400 CMaps; each then decodes 7 code strings of 1..4-byte codes); Flate + predictor 2 and 12 with Colors 1,3,4 x BitsPerComponent 1,2,4,8,16 x the 150 extremes as Columns, and the 39 extremes (d = 1) as Colors, as BitsPerComponent, and as Columns and Colors together (7698); each input in a worker with a 2 MiB stack, 4 GB address space, a 10 s no-progress watchdog, and a CPU-time budget of 1 s + 10 us per input byte (process CPU time over all threads; measured a second time, smaller figure kept, unless exceeded more than 4 times)", false);
     let n = jobs.len();
     let workers = WORKERS;
     let chunk = (n + workers - 1) / workers;
